@@ -12,7 +12,7 @@ import c15
 import corpus
 import vlib
 
-MC_CFG = "SPECIFICATION Spec\nCONSTANTS\n  Truncate = %s\n  MaxSteps = %d\nINVARIANTS FileIsExactlyTheReport StdoutIsExactlyTheReport FailuresPrintNoReport%s\nCHECK_DEADLOCK FALSE\n"
+MC_CFG = "SPECIFICATION Spec\nCONSTANTS\n  Truncate = %s\n  MaxSteps = %d\nINVARIANTS FileIsExactlyTheReport StdoutIsExactlyTheReport FailuresPrintNoReport ReportOnlyFromValidate OtherCommandsExit%s\nPROPERTIES OnlyValidateToFileWrites\nCHECK_DEADLOCK FALSE\n"
 
 PAIRS = {
     # one line of more than 1 MiB (minified graph)
@@ -25,6 +25,9 @@ PAIRS = {
 FAILING = [(corpus.OK_PROFILE, c09.DOCS["notJson"]), (corpus.OK_PROFILE, ""), (corpus.PARSE_ERROR_PROFILES[2], c09.DOCS["pass"]),
            (corpus.GEN_ERROR_PROFILES[0], c09.DOCS["pass"]), (corpus.OK_PROFILE, c09.DOCS["ldReject"]),
            (corpus.REGO_ERROR_PROFILES[0], c09.DOCS["pass"])]
+OTHERS = {"generate", "normalize", "compile", "help", "unknownCommand", "validateOneArg", "validateFourArgs", "generateNoArg",
+          "generateTwoArgs", "normalizeTwoArgs", "compileNoArg", "missingProfile", "missingData", "generateBroken",
+          "normalizeBroken", "compileBroken"}
 DATE = re.compile(rb'"dateCreated": "[^"]*"')
 
 
@@ -47,7 +50,11 @@ def run(tier):
     neg = vlib.run_tlc("cli_neg", "Cli", MC_CFG % ("FALSE", 3, ""), workers=4, timeout=300)
     if neg.violated != "FileIsExactlyTheReport":
         raise vlib.Infra("negative control (open without truncate) not refuted: %s %s" % (neg.violated, neg.error))
-    gen = vlib.run_tlc("cli_hist", "CliHist", MC_CFG % ("TRUE", steps, " EmitHist"), workers=4, timeout=900)
+    if quick:
+        gen = vlib.run_tlc("cli_hist", "CliHist", MC_CFG % ("TRUE", steps, " EmitHist"), workers=4, timeout=900)
+    else:       # 31^4 histories: simulated behaviours instead of the full enumeration
+        gen = vlib.run_tlc("cli_hist", "CliHist", MC_CFG % ("TRUE", steps, " EmitHist"), workers=1, timeout=900,
+                           simulate="num=20000", depth=steps + 1, seed_=vlib.seed())
     vlib.tlc_must_pass(gen, "CliHist")
     hists = vlib.cases_from_prints(gen)
     hists = sorted(hists, key=lambda h: json.dumps(h))
@@ -56,7 +63,9 @@ def run(tier):
     hists = hists[: (220 if quick else 6000)]
     acv = vlib.build_cli()
     # reference outputs from the library (fresh process)
-    ref_rows = [{"id": "pair%d" % i, "op": "validate", "profile": p, "data": d} for i, (p, d) in PAIRS.items()]
+    ref_rows = [{"id": "pair%d" % i, "op": "validate", "profile": p, "data": d} for i, (p, d) in PAIRS.items()] + \
+               [{"id": "policy%d" % i, "op": "generate", "profile": p, "data": ""} for i, (p, d) in PAIRS.items()] + \
+               [{"id": "normalized%d" % i, "op": "normalize", "profile": "", "data": d} for i, (p, d) in PAIRS.items()]
     gen_profiles = [corpus.OK_PROFILE, corpus.OK_PROFILE_NESTED, c15.RICH_PROFILE] + [p for p, _, _ in corpus.fixture_pairs()[:: (12 if quick else 2)]]
     numeric = json.dumps([{"@id": "http://example.org/num", "@type": ["http://example.org/ns#T"]}])[:-2] + \
         ', "http://example.org/ns#a": 1.0, "http://example.org/ns#b": 1e2, "http://example.org/ns#c": 0.10, ' \
@@ -69,7 +78,7 @@ def run(tier):
         if r.get("err"):
             raise vlib.Infra("library fails on a reference pair: %s" % r["err"])
         refs[r["id"]] = r["out"].encode()
-    sizes = sorted(len(v) for v in refs.values())
+    sizes = sorted(len(v) for k, v in refs.items() if k.startswith("pair"))
     if len(set(sizes)) != 3:
         raise vlib.Infra("reference reports must have three different lengths: %s" % sizes)
     junk = {0: b"", 1: b"short junk", 6: b"J" * (sizes[-1] * 3 + 1000)}
@@ -145,6 +154,33 @@ def run(tier):
                     if after != before:
                         return ("validate without output path changed the file", h, si, "")
                 continue
+            if op in OTHERS:
+                before = rd(out)
+                pf, df = files[st["pair"] or 1]
+                bpf, bdf = fail_files[2][0], fail_files[0][1]       # unparsable profile text, data that is not JSON
+                rpf = fail_files[5][0]                              # profile whose Rego does not compile
+                missing = os.path.join(d, "no-such-file")
+                args = {"generate": ["generate", pf], "normalize": ["normalize", df], "compile": ["compile", files[1][0]], "help": ["help"],
+                        "unknownCommand": ["frobnicate", pf, df], "validateOneArg": ["validate", pf],
+                        "validateFourArgs": ["validate", pf, df, out, out], "generateNoArg": ["generate"],
+                        "generateTwoArgs": ["generate", pf, df], "normalizeTwoArgs": ["normalize", df, out],
+                        "compileNoArg": ["compile"], "missingProfile": ["validate", missing, df],
+                        "missingData": ["validate", pf, missing, out], "generateBroken": ["generate", bpf],
+                        "normalizeBroken": ["normalize", bdf], "compileBroken": ["compile", rpf]}[op]
+                pr = subprocess.run([acv] + args, capture_output=True, timeout=120)
+                if rd(out) != before:
+                    return ("acv %s changed the output path of an earlier run" % args[0], h, si, "")
+                if op in ("generate", "normalize"):
+                    want = refs[("policy%d" if op == "generate" else "normalized%d") % st["pair"]]
+                    if pr.returncode != 0 or pr.stdout not in (want, want + b"\n"):
+                        return ("acv %s output differs from the library's" % op, h, si, pr.stdout[:200].decode(errors="replace"))
+                elif op in ("compile", "help"):
+                    if pr.returncode != 0 or looks_like_report(pr.stdout):
+                        return ("acv %s: exit %d / report on stdout" % (op, pr.returncode), h, si, pr.stderr[-200:].decode(errors="replace"))
+                else:
+                    if pr.returncode == 0 or looks_like_report(pr.stdout):
+                        return ("failing invocation (%s) exits %d or prints a report" % (op, pr.returncode), h, si, "")
+                continue
             # failing runs
             pf, df = fail_files[(hi + si) % len(fail_files)]
             before = rd(out)
@@ -203,7 +239,9 @@ def run(tier):
         "traces_validated_against_impl": len(hists),
         "evaluations": len(hists) * steps + other, "distinct_nontrivial": len(hists),
         "rule": "Cli.tla model-checked (file state machine: validate to file / to stdout for 3 input pairs with reports of "
-                "different length, failing runs, external remove, overwrite with empty / shorter / longer content; histories of "
+                "different length, failing runs, external remove, overwrite with empty / shorter / longer content, litter next to "
+                "the path, path is a directory, and the other subcommands - generate, normalize, compile, help, unknown command, "
+                "wrong argument counts, missing or broken input files - as steps of the same histories; histories of "
                 "<= 4 steps; refuted for open-without-truncate); %d of the %d histories of exactly %d steps enumerated by TLC "
                 "replayed with the real `acv` binary built from /repo/cmd, comparing file bytes / stdout with the library's "
                 "report obtained in a separate process (dateCreated value masked on both sides, one trailing newline allowed); "
